@@ -7,15 +7,6 @@ Ltac len0 := change (len (@nil Z)) with 0 in *.
 Ltac len0g := change (len (@nil Z)) with 0.
 Ltac simp_h := cbn [ofs rbuf wb i_rd i_wr i_app i_closed tick upd_w upd_r upd_closed].
 
-(* impl result vs spec result: equal, or the code's (nil, message) where the spec has a single nil *)
-Definition res_sim (r r' : res) : Prop := r = r' \/ (r = RFail /\ r' = RVals [VNil]).
-
-Definition is_FNum (f : rfmt) : bool := match f with FNum => true | _ => false end.
-Definition nonum (fs : list rfmt) : bool := negb (existsb is_FNum fs).
-(* "*n" only as the first format of a read (C19-11 otherwise) *)
-Definition numfirst_op (o : op) : bool :=
-  match o with ORead (_ :: t) => nonum t | _ => true end.
-
 Definition Inv (disk : bytes) (h : ihandle) : Prop :=
   Rinv disk h /\
   (i_rd h = false -> rbuf h = []) /\
@@ -52,7 +43,7 @@ Lemma iread1_spec disk h f h' r : Rinv disk h -> iread1 ch disk h f = (h', r) ->
   | None => r = RdUnsup
   | Some (v, p') =>
     Rinv disk h' /\ pos h' = p' /\ same_frame h h' /\
-    (r = RdV v \/ (r = RdErr /\ v = VNil /\ f = FNum /\ exists n, scan_num (rest disk (pos h)) = NBad n))
+    r = RdV v
   end.
 Proof.
   intros I E. pose proof I as (I0 & I1 & I2).
@@ -66,10 +57,10 @@ Proof.
       assert (n = 0) by lia. subst n.
       destruct (rem disk h) as [|b t] eqn:ER; cbn [hd_error] in C; subst c.
       * split; [eapply adv_by_Rinv; eauto|]. destruct A as (_ & _ & P0 & _ & _ & SF).
-        split; [lia|]. split; [exact SF|left; reflexivity].
+        split; [lia|]. split; [exact SF|reflexivity].
       * change (0 <? 0) with false. cbv iota zeta. rewrite firstn_clip. cbn [Z.to_nat firstn].
         split; [eapply adv_by_Rinv; eauto|]. destruct A as (_ & _ & P0 & _ & _ & SF).
-        split; [len0; lia|]. split; [exact SF|left; reflexivity].
+        split; [len0; lia|]. split; [exact SF|reflexivity].
     + set (want := if n <? 0 then RCHUNK * (len (rbuf h) + len disk + 1) else n) in *.
       assert (LR : len (rem disk h) <= len (rbuf h) + len disk).
       { pose proof (rem_length_le disk h). unfold len. lia. }
@@ -82,7 +73,7 @@ Proof.
       destruct (rem disk h) as [|b t] eqn:ER.
       * rewrite firstn_nil in *. len0.
         assert (eof = true) by (apply EO; lia). subst eof.
-        split; [eapply adv_by_Rinv; eauto|]. split; [lia|]. split; [exact SF|left; reflexivity].
+        split; [eapply adv_by_Rinv; eauto|]. split; [lia|]. split; [exact SF|reflexivity].
       * cbv zeta.
         assert (FE : firstn (Z.to_nat (if n <? 0 then len (b :: t) else Z.min n (len (b :: t)))) (b :: t)
                      = firstn (Z.to_nat want) (b :: t)).
@@ -91,7 +82,7 @@ Proof.
             pose proof (len_nonneg (rbuf h)). pose proof (len_nonneg disk). unfold RCHUNK, len in *. lia.
           - apply firstn_clip. }
         rewrite FE.
-        split; [eapply adv_by_Rinv; eauto|]. split; [exact P0|]. split; [exact SF|left].
+        split; [eapply adv_by_Rinv; eauto|]. split; [exact P0|]. split; [exact SF|].
         destruct (Z.to_nat want) eqn:EN; [lia|]. reflexivity.
   - (* line *)
     assert (FL : (length (rem disk h) + 2 <= line_fuel disk h)%nat).
@@ -101,9 +92,9 @@ Proof.
     pose proof A as (_ & _ & P0 & _ & _ & SF).
     unfold line_of. destruct (rem disk h) as [|b t] eqn:ER.
     + cbn [take_line fst snd] in *. split; [eapply adv_by_Rinv; eauto|]. split; [len0; lia|].
-      split; [exact SF|left; reflexivity].
+      split; [exact SF|reflexivity].
     + destruct (take_line (b :: t)) as [l nl]. cbn [fst snd andb] in *.
-      split; [eapply adv_by_Rinv; eauto|]. split; [exact P0|]. split; [exact SF|left; reflexivity].
+      split; [eapply adv_by_Rinv; eauto|]. split; [exact P0|]. split; [exact SF|reflexivity].
   - (* all *)
     injection E as <- <-. pose proof (Rinv_ofs disk h I) as Ho.
     split; [|split; [|split]].
@@ -111,70 +102,41 @@ Proof.
     + unfold pos at 1. cbn [ofs rbuf upd_r]. len0.
       unfold rem. rewrite len_app, len_rest by exact Ho. unfold pos. lia.
     + apply same_frame_upd_r.
-    + left. reflexivity.
+    + reflexivity.
   - (* number *)
     destruct (scanNum_spec ch disk h I) as (h1 & SN & NA). rewrite SN in E.
     destruct (scan_num (rem disk h)) as [n|n|n v k|]; injection E as <- <-; cbn [num_adv] in NA;
       try reflexivity;
       (pose proof NA as (_ & _ & P0 & _ & _ & SF);
        split; [eapply adv_by_Rinv; eauto|]; split; [exact P0|]; split; [exact SF|]).
-    + left; reflexivity.
-    + right. split; [reflexivity|]. split; [reflexivity|]. split; [reflexivity|]. exists n; reflexivity.
-    + left; reflexivity.
+    + reflexivity.
+    + reflexivity.
+    + reflexivity.
 Qed.
 
-Lemma ireads_nonum disk : forall fs h acc h' r r' p',
-  nonum fs = true -> Rinv disk h ->
+Lemma ireads_spec disk : forall fs h acc h' r r' p',
+  Rinv disk h ->
   ireads ch disk h fs acc = (h', r) -> s_reads true disk (pos h) fs acc = (r', p') ->
   r' <> RUnsupported ->
   r = r' /\ Rinv disk h' /\ pos h' = p' /\ same_frame h h'.
 Proof.
-  induction fs as [|f fs IH]; intros h acc h' r r' p' NN I EI ES NU.
+  induction fs as [|f fs IH]; intros h acc h' r r' p' I EI ES NU.
   - cbn in EI, ES. injection EI as <- <-. injection ES as <- <-.
     split; [reflexivity|]. split; [exact I|]. split; [reflexivity|apply same_frame_refl].
   - cbn [ireads s_reads] in EI, ES.
-    unfold nonum in NN. cbn [existsb] in NN.
-    assert (NF : is_FNum f = false) by (destruct (is_FNum f); [discriminate|reflexivity]).
-    assert (NN' : nonum fs = true) by (unfold nonum; rewrite NF in NN; exact NN).
     destruct (iread1 ch disk h f) as [h1 r1] eqn:E1.
     pose proof (iread1_spec disk h f h1 r1 I E1) as SP.
     destruct (s_read1 true disk (pos h) f) as [[v p1]|].
     2:{ injection ES as <- <-. congruence. }
-    destruct SP as (I1 & P1 & SF & [->|(-> & _ & -> & _)]); [|discriminate].
+    destruct SP as (I1 & P1 & SF & ->).
     destruct v.
     + injection EI as <- <-. injection ES as <- <-. auto.
-    + subst p1. destruct (IH h1 _ _ _ _ _ NN' I1 EI ES NU) as (? & ? & ? & SF2).
+    + subst p1. destruct (IH h1 _ _ _ _ _ I1 EI ES NU) as (? & ? & ? & SF2).
       split; [auto|]. split; [auto|]. split; [auto|]. eapply same_frame_trans; eauto.
-    + subst p1. destruct (IH h1 _ _ _ _ _ NN' I1 EI ES NU) as (? & ? & ? & SF2).
+    + subst p1. destruct (IH h1 _ _ _ _ _ I1 EI ES NU) as (? & ? & ? & SF2).
       split; [auto|]. split; [auto|]. split; [auto|]. eapply same_frame_trans; eauto.
-    + subst p1. destruct (IH h1 _ _ _ _ _ NN' I1 EI ES NU) as (? & ? & ? & SF2).
+    + subst p1. destruct (IH h1 _ _ _ _ _ I1 EI ES NU) as (? & ? & ? & SF2).
       split; [auto|]. split; [auto|]. split; [auto|]. eapply same_frame_trans; eauto.
-Qed.
-
-Lemma ireads_spec disk fs h h' r r' p' :
-  numfirst_op (ORead fs) = true -> Rinv disk h ->
-  ireads ch disk h fs [] = (h', r) -> s_reads true disk (pos h) fs [] = (r', p') ->
-  r' <> RUnsupported ->
-  res_sim r r' /\ Rinv disk h' /\ pos h' = p' /\ same_frame h h'.
-Proof.
-  intros NF I EI ES NU. destruct fs as [|f fs].
-  - cbn in EI, ES. injection EI as <- <-. injection ES as <- <-.
-    split; [left; reflexivity|]. split; [exact I|]. split; [reflexivity|apply same_frame_refl].
-  - cbn [numfirst_op] in NF. cbn [ireads s_reads] in EI, ES.
-    destruct (iread1 ch disk h f) as [h1 r1] eqn:E1.
-    pose proof (iread1_spec disk h f h1 r1 I E1) as SP.
-    destruct (s_read1 true disk (pos h) f) as [[v p1]|].
-    2:{ injection ES as <- <-. congruence. }
-    destruct SP as (I1 & P1 & SF & [->|(-> & -> & -> & _)]).
-    + destruct v.
-      * injection EI as <- <-. injection ES as <- <-. split; [left; reflexivity|auto].
-      * subst p1. destruct (ireads_nonum disk fs h1 _ _ _ _ _ NF I1 EI ES NU) as (-> & ? & ? & SF2).
-        split; [left; reflexivity|]. split; [auto|]. split; [auto|]. eapply same_frame_trans; eauto.
-      * subst p1. destruct (ireads_nonum disk fs h1 _ _ _ _ _ NF I1 EI ES NU) as (-> & ? & ? & SF2).
-        split; [left; reflexivity|]. split; [auto|]. split; [auto|]. eapply same_frame_trans; eauto.
-      * subst p1. destruct (ireads_nonum disk fs h1 _ _ _ _ _ NF I1 EI ES NU) as (-> & ? & ? & SF2).
-        split; [left; reflexivity|]. split; [auto|]. split; [auto|]. eapply same_frame_trans; eauto.
-    + injection EI as <- <-. injection ES as <- <-. split; [right; auto|auto].
 Qed.
 
 Lemma ilines_spec disk : forall k h acc h' r l p',
@@ -324,26 +286,26 @@ Qed.
 
 Lemma step_sim disk h l l' o d' h' r c' s' r' :
   Inv disk h -> (is_LWrite l = false -> pending h = []) ->
-  disc1_step l o = Some l' -> numfirst_op o = true ->
+  disc1_step l o = Some l' ->
   istep ch disk h o = (d', h', r) ->
   sstep true (abs_content disk h) (abs_h disk h) o = (c', s', r') ->
   r' <> RUnsupported ->
   Inv d' h' /\ (is_LWrite l' = false -> pending h' = []) /\
-  c' = abs_content d' h' /\ s' = abs_h d' h' /\ res_sim r r'.
+  c' = abs_content d' h' /\ s' = abs_h d' h' /\ r = r'.
 Proof.
-  intros IV LP D NF EI ES NU. pose proof IV as (I & NR & PB & NW & CL).
+  intros IV LP D EI ES NU. pose proof IV as (I & NR & PB & NW & CL).
   unfold istep in EI. unfold sstep in ES. cbn [s_closed abs_h] in ES.
   destruct (i_closed h) eqn:C.
   { destruct (CL eq_refl) as (P0 & RB0).
     assert (EI2 : (disk, h, RRaise) = (d', h', r)) by (destruct o; try exact EI; rewrite RB0 in EI; exact EI).
     injection EI2 as <- <- <-. injection ES as <- <- <-.
-    split; [exact IV|]. split; [intros _; exact P0|]. split; [reflexivity|]. split; [reflexivity|left; reflexivity]. }
+    split; [exact IV|]. split; [intros _; exact P0|]. split; [reflexivity|]. split; [reflexivity|reflexivity]. }
   destruct o as [fs|k|k|ss|w off| |m size|]; cbn [s_rd s_wr s_app s_pos abs_h] in ES.
   - (* read *)
     destruct (i_rd h) eqn:RD; cbn [negb] in EI, ES.
     2:{ injection EI as <- <- <-. injection ES as <- <- <-. cbn in D. destruct (is_LWrite l) eqn:LW; [discriminate|].
         injection D as <-. split; [exact IV|]. split; [intros _; apply LP; reflexivity|].
-        split; [reflexivity|]. split; [reflexivity|left; reflexivity]. }
+        split; [reflexivity|]. split; [reflexivity|reflexivity]. }
     cbn in D. destruct (is_LWrite l) eqn:LW; [discriminate|]. injection D as <-.
     pose proof (LP eq_refl) as P0.
     pose proof (abs_view_nopending disk h P0) as AV.
@@ -352,7 +314,7 @@ Proof.
     rewrite AC, AP in ES.
     destruct (ireads ch disk h fs []) as [h1 r1] eqn:E1. injection EI as <- <- <-.
     destruct (s_reads true disk (pos h) fs []) as [r2 p2] eqn:E2. injection ES as <- <- <-.
-    destruct (ireads_spec disk fs h h1 r1 r2 p2 NF I E1 E2 NU) as (RS & I1 & P1 & (F1 & F2 & F3 & F4 & F5)).
+    destruct (ireads_spec disk fs h [] h1 r1 r2 p2 I E1 E2 NU) as (RS & I1 & P1 & (F1 & F2 & F3 & F4 & F5)).
     assert (P1' : pending h1 = []) by (unfold pending in *; rewrite F1; exact P0).
     pose proof (abs_view_nopending disk h1 P1') as AV1.
     split.
@@ -366,7 +328,7 @@ Proof.
     destruct (i_rd h) eqn:RD; cbn [negb] in EI, ES.
     2:{ injection EI as <- <- <-. injection ES as <- <- <-. cbn in D. destruct (is_LWrite l) eqn:LW; [discriminate|].
         injection D as <-. split; [exact IV|]. split; [intros _; apply LP; reflexivity|].
-        split; [reflexivity|]. split; [reflexivity|left; reflexivity]. }
+        split; [reflexivity|]. split; [reflexivity|reflexivity]. }
     cbn in D. destruct (is_LWrite l) eqn:LW; [discriminate|]. injection D as <-.
     pose proof (LP eq_refl) as P0.
     pose proof (abs_view_nopending disk h P0) as AV.
@@ -383,7 +345,7 @@ Proof.
       split; [rewrite P1'; congruence|]. split; [rewrite F3, F1; exact NW|]. rewrite F5, C. discriminate. }
     split; [intros _; exact P1'|].
     split; [unfold abs_content; rewrite AV1; reflexivity|].
-    split; [|left; reflexivity].
+    split; [|reflexivity].
     unfold abs_h, s_setpos, abs_pos. rewrite AV1. cbn. rewrite P1, F2, F3, F4, F5, RD, C. reflexivity.
   - (* a step of an earlier iterator *)
     destruct (i_rd h) eqn:RD; cbn [negb] in EI, ES.
@@ -404,13 +366,13 @@ Proof.
       split; [rewrite P1'; congruence|]. split; [rewrite F3, F1; exact NW|]. rewrite F5, C. discriminate. }
     split; [intros _; exact P1'|].
     split; [unfold abs_content; rewrite AV1; reflexivity|].
-    split; [|left; reflexivity].
+    split; [|reflexivity].
     unfold abs_h, s_setpos, abs_pos. rewrite AV1. cbn. rewrite P1, F2, F3, F4, F5, RD, C. reflexivity.
   - (* write *)
     cbn in D. destruct (is_LRead l); [discriminate|]. injection D as <-.
     destruct (i_wr h) eqn:WR; cbn [negb] in EI, ES.
     2:{ injection EI as <- <- <-. injection ES as <- <- <-.
-        split; [exact IV|]. split; [discriminate|]. split; [reflexivity|]. split; [reflexivity|left; reflexivity]. }
+        split; [exact IV|]. split; [discriminate|]. split; [reflexivity|]. split; [reflexivity|reflexivity]. }
     destruct (abandon_abs disk h IV) as (E0 & O0 & AV0 & W0 & G1 & G2 & G3 & G4).
     destruct (fold_left iwrite1 ss (disk, abandon h)) as [d1 h1] eqn:FW. injection EI as <- <- <-.
     destruct (iwrites_abs ss disk (abandon h) d1 h1 E0 O0 FW) as (E1 & O1 & B1 & B2 & B3 & B4 & B5 & BV).
@@ -422,7 +384,7 @@ Proof.
       - rewrite B4, G4, C. discriminate. }
     split; [discriminate|].
     split; [unfold abs_content; rewrite AV1; reflexivity|].
-    split; [|left; reflexivity].
+    split; [|reflexivity].
     unfold abs_h, s_setpos, abs_pos. rewrite AV1. cbn. rewrite B1, B2, B3, B4, G1, G2, G3, G4, WR, C. reflexivity.
   - (* seek *)
     cbn in D. injection D as <-.
@@ -442,7 +404,7 @@ Proof.
     + injection EI as <- <- <-. injection ES as <- <- <-.
       split; [apply Inv_nobuf; auto|]. split; [intros _; exact P2|].
       split; [unfold abs_content; rewrite AVN; reflexivity|].
-      split; [|left; reflexivity].
+      split; [|reflexivity].
       unfold abs_h, abs_pos. rewrite AVN, AVh. cbn [snd]. rewrite PO, G1, G2, G3, G4, F1, F2, F3, F4. reflexivity.
     + injection EI as <- <- <-. injection ES as <- <- <-.
       set (np := seek_target w off (ofs (abandon h1)) (len d1)) in *.
@@ -454,25 +416,25 @@ Proof.
       split; [apply Inv_nobuf; [exact E3|cbn; apply Z.ltb_ge; exact NEG|exact NW2|intros _; exact P3]|].
       split; [intros _; exact P3|].
       split; [unfold abs_content; rewrite AV3; reflexivity|].
-      split; [|left; reflexivity].
+      split; [|reflexivity].
       unfold abs_h, s_setpos, abs_pos. rewrite AV3. cbn. rewrite G1, G2, G3, G4, F1, F2, F3, F4. reflexivity.
   - (* flush *)
     cbn in D. injection D as <-.
     destruct (i_wr h) eqn:WR; cbn [negb] in EI.
     2:{ injection EI as <- <- <-. injection ES as <- <- <-.
         assert (P0 : pending h = []) by (unfold pending; rewrite (NW eq_refl); reflexivity).
-        split; [exact IV|]. split; [intros _; exact P0|]. split; [reflexivity|]. split; [reflexivity|left; reflexivity]. }
+        split; [exact IV|]. split; [intros _; exact P0|]. split; [reflexivity|]. split; [reflexivity|reflexivity]. }
     destruct (iflush disk h) as [d1 h1] eqn:FL. injection EI as <- <- <-. injection ES as <- <- <-.
     destruct (iflush_abs disk h d1 h1 IV FL) as (AV1 & P1 & IV1 & F1 & F2 & F3 & F4 & F5).
     split; [exact IV1|]. split; [intros _; exact P1|].
     split; [unfold abs_content; rewrite AV1; reflexivity|].
-    split; [|left; reflexivity].
+    split; [|reflexivity].
     unfold abs_h, abs_pos. rewrite AV1, F1, F2, F3, F4, WR. reflexivity.
   - (* setvbuf *)
     cbn in D. injection D as <-.
     destruct (i_wr h) eqn:WR; cbn [negb] in EI.
     2:{ injection EI as <- <- <-. injection ES as <- <- <-.
-        split; [exact IV|]. split; [exact LP|]. split; [reflexivity|]. split; [reflexivity|left; reflexivity]. }
+        split; [exact IV|]. split; [exact LP|]. split; [reflexivity|]. split; [reflexivity|reflexivity]. }
     destruct (iflush disk h) as [d1 h1] eqn:FL. injection EI as <- <- <-. injection ES as <- <- <-.
     destruct (iflush_abs disk h d1 h1 IV FL) as (AV1 & P1 & IV1 & F1 & F2 & F3 & F4 & F5).
     set (h2 := upd_w h1 (ofs h1) (match m with VNo => None | _ => Some ([], vcap size) end)).
@@ -485,7 +447,7 @@ Proof.
       split; [cbn; rewrite F2, WR; discriminate|]. intros X. split; [exact P2|]. apply CL1. exact X. }
     split; [intros _; exact P2|].
     split; [unfold abs_content; rewrite AV2, AV1; reflexivity|].
-    split; [|left; reflexivity].
+    split; [|reflexivity].
     unfold abs_h, abs_pos. rewrite AV2, AV1. cbn. rewrite F1, F2, F3, F4, WR. reflexivity.
   - (* close *)
     cbn in D. injection D as <-.
@@ -511,7 +473,7 @@ Proof.
       cbn. rewrite G2, W2. destruct IV1 as (_ & _ & _ & X & _). exact X. }
     split; [intros _; exact P3|].
     split; [unfold abs_content; rewrite AV3; reflexivity|].
-    split; [|left; reflexivity].
+    split; [|reflexivity].
     unfold abs_h, abs_pos. rewrite AV3. cbn. rewrite G1, G2, G3, F1, F2, F3. reflexivity.
 Qed.
 
